@@ -420,7 +420,7 @@ func TestHooksAndRowChanges(t *testing.T) {
 
 func TestUnknownStatementIsBroken(t *testing.T) {
 	e, db := setup(t)
-	for _, q := range []string{"EXPLAIN SELECT id FROM users", "SHOW MASTER STATUS", "SELECT id FROM users WHERE name LIKE ?", "SELECT id FROM nosuch", "SELECT nosuch FROM users", "SELECT id FROM users WHERE name IS ?"} {
+	for _, q := range []string{"EXPLAIN UPDATE users SET name = ?", "SHOW MASTER STATUS", "SELECT id FROM users WHERE name LIKE ?", "SELECT id FROM nosuch", "SELECT nosuch FROM users", "SELECT id FROM users WHERE name IS ?"} {
 		before := len(e.Broken())
 		args := []interface{}{}
 		if strings.Contains(q, "?") {
@@ -611,6 +611,26 @@ func TestFaultInjection(t *testing.T) {
 	e.SetHooks(Hooks{})
 	if n, err := db.Count(ctx, &pair{}, nil); err != nil || n != 3 {
 		t.Fatalf("after faults: %d %v", n, err)
+	}
+	noBroken(t, e)
+}
+
+func TestExplain(t *testing.T) {
+	e, db := setup(t)
+	ctx := WithTag(context.Background(), "x")
+	db.InsertRow(ctx, &user{Name: "a"})
+	pdb, err := sqlgen.NewDB(db.Conn, db.Schema).WithPanicOnNoIndex()
+	if err != nil {
+		t.Fatal(err)
+	}
+	var us []*user
+	if err := pdb.Query(ctx, &us, sqlgen.Filter{"name": "a"}, nil); err != nil || len(us) != 1 {
+		t.Fatalf("query with explain: %v %d", err, len(us))
+	}
+	log := e.Log()
+	ex, sel := log[len(log)-2], log[len(log)-1]
+	if ex.Kind != SExplain || ex.Table != "users" || ex.Where.String() != `name = "a"` || ex.Tag != "x" || sel.Kind != SSelect {
+		t.Fatalf("log: %s / %s", ex.Summary(), sel.Summary())
 	}
 	noBroken(t, e)
 }
